@@ -93,8 +93,8 @@ def check_diffuse_slots(ctx, sc):
     """Lambertian table sampled on n directions must give, in every slot, the 1-direction result."""
     if sc['tables'] is not None:
         return
-    sc1 = dict(sc, samp_par=None)
-    scn = dict(sc, samp_par=sc['samp_par'] or (1, 4, 1.0, 0.3))
+    sc1 = dict(sc, samp_par=None, samp_in=None)
+    scn = dict(sc, samp_par=sc['samp_par'] or (1, 4, 1.0, 0.3), samp_in=None)
     r1 = energy.run_all(sc1)
     rn = energy.run_all(scn)
     ctx.oracle_evals += 2
